@@ -1,6 +1,7 @@
 package ring
 
 import (
+	"os"
 	"fmt"
 	"sort"
 	"strings"
@@ -402,7 +403,7 @@ func GenPlan(prop string, seed uint64, tier string) *Plan {
 				Delay: pick(r, 0, time.Duration(r.Int63n(int64(3*time.Millisecond))), time.Duration(r.Int63n(int64(30*time.Millisecond))))})
 		}
 	}
-	if (churn || prop == "C09") && prop != "C07" && prop != "C08" && r.Chance(0.15) {
+	if (churn || prop == "C09") && prop != "C07" && prop != "C08" && (r.Chance(0.15) || os.Getenv("VERIF_PILEUP") == "1") {
 		// pile-up at one node: it serves a join slowly (the request thread sits at its lock sites), starts to
 		// leave in the middle of it, and its successor changes at the same time (so that its periodic tasks
 		// have something to write)
